@@ -80,29 +80,31 @@ Section Creation.
     | (j, _) :: t => if Nat.eqb j v then Some i else position v t (S i)
     end.
 
-  Definition add_to_adjacency_vec (av : list (list adj)) (u v : nat) (w : weight) (exists_ : bool)
+  Definition add_to_adjacency_vec (s : specs) (av : list (list adj)) (u v : nat) (w : weight) (exists_ : bool)
     : outcome (list (list adj)) :=
     match nth_error av u with
-    | None => Panic "creation.rs:472"
+    | None => Panic "creation.rs:479"
     | Some row =>
       if exists_ then
         match position v row 0 with
-        | None => Panic "creation.rs:475"
+        | None => Panic "creation.rs:482"
         | Some idx =>
           match nth_error row idx with
-          | None => Panic "creation.rs:476"
+          | None => Panic "creation.rs:485"
           | Some (_, w0) =>
-            if wlt w w0 then
+            let replace := if multi s then wlt w w0
+                           else match dd s with DKeepLast => true | _ => false end in
+            if replace then
               match set_nth idx (v, w) row with
-              | None => Panic "creation.rs:477"
+              | None => Panic "creation.rs:490"
               | Some row' =>
-                match set_nth u row' av with Some av' => Ok av' | None => Panic "creation.rs:477" end
+                match set_nth u row' av with Some av' => Ok av' | None => Panic "creation.rs:490" end
               end
             else Ok av
           end
         end
       else
-        match set_nth u (row ++ [(v, w)]) av with Some av' => Ok av' | None => Panic "creation.rs:480" end
+        match set_nth u (row ++ [(v, w)]) av with Some av' => Ok av' | None => Panic "creation.rs:493" end
     end.
 
   (* HashMap<K, HashSet<X>>: entry(k).or_default().insert(x) *)
@@ -143,11 +145,11 @@ Section Creation.
               let '(ou, ov) := if negb (directed s) && Nat.ltb vi ui then (vi, ui) else (ui, vi) in
               let su1 := upd_set teqb teqb (eu e) (ev e) (successors g2) in
               let sm1 := upd_set Nat.eqb Nat.eqb ui vi (successors_map g2) in
-              match add_to_adjacency_vec (successors_vec g2) ou ov (ew e) ex with
+              match add_to_adjacency_vec s (successors_vec g2) ou ov (ew e) ex with
               | Ok sv1 =>
                 let r :=
                   if directed s then
-                    match add_to_adjacency_vec (predecessors_vec g2) ov ou (ew e) ex with
+                    match add_to_adjacency_vec s (predecessors_vec g2) ov ou (ew e) ex with
                     | Ok pv =>
                       Ok (su1, sm1, sv1,
                           upd_set teqb teqb (ev e) (eu e) (predecessors g2),
@@ -155,7 +157,8 @@ Section Creation.
                     | Err k => Err k | Panic x => Panic x | OutOfFuel => OutOfFuel
                     end
                   else
-                    match add_to_adjacency_vec sv1 ov ou (ew e) ex with
+                    match (if Nat.eqb ui vi then Ok sv1
+                           else add_to_adjacency_vec s sv1 ov ou (ew e) ex) with
                     | Ok sv2 =>
                       Ok (upd_set teqb teqb (ev e) (eu e) su1,
                           upd_set Nat.eqb Nat.eqb vi ui sm1, sv2,
